@@ -139,6 +139,44 @@ def truncEntryGen (eps : Rat) (z : CRat) : Except Err Rat :=
   if !(truncImagCond eps z) && z.im != 0 then .error .imagNonZero
   else .ok (if truncFluctCond eps z.re then 0 else z.re)
 
+/-- gate.py:convert_hs parameter checks: `if size[0] != size[1]: raise`; `if dim ** 2 != size[0]: raise`; `if from_basis.dim != to_basis.dim: raise`; `if len(from_basis) != len(to_basis): raise` -/
+def convertHsChecksGen (rows cols fromDim fromLen toDim toLen : Nat) : Except Err Unit :=
+  if rows ≠ cols then .error .notSquare
+  else if (Nat.sqrt rows) ^ 2 ≠ rows then .error .dimNotSquare
+  else if fromDim ≠ toDim then .error .dimMismatch
+  else if fromLen ≠ toLen then .error .lenMismatch
+  else .ok ()
+
+/-- matrix_basis.py:convert_vec parameter checks: `if len(from_basis) != len(to_basis): raise`; `if from_basis.dim != to_basis.dim: raise` -/
+def convertVecChecksGen (fromDim fromLen toDim toLen : Nat) : Except Err Unit :=
+  if fromLen ≠ toLen then .error .lenMismatch
+  else if fromDim ≠ toDim then .error .dimMismatch
+  else .ok ()
+
+/-- gate.py:to_kraus_matrices_from_hs `[… for (eigen_val, eigen_vec) in eigens if not np.isclose(eigen_val, 0, atol=Settings.get_atol())]` (np.isclose(x, 0, atol=a) is |x| <= a) -/
+def krausKeep {d : Nat} (atolSettings : Rat) (e : EigPair d) : Bool :=
+  !closeZero e.val atolSettings
+
+/-- gate.py:to_kraus_matrices_from_hs `eigens = sorted(eigens, key=lambda x: x[0], reverse=True)` (stable, largest eigenvalue first) -/
+def krausSort {d : Nat} (l : List (EigPair d)) : List (EigPair d) :=
+  sortDesc l
+
+/-- gate.py:to_kraus_matrices_from_hs `np.sqrt(eigen_val) * eigen_vec.reshape((c_sys.dim, c_sys.dim))` (np.sqrt(eigen_val) is the kernel parameter sqrtVal) -/
+def krausScale {d : Nat} (e : EigPair d) : Mat CRat d d :=
+  Mat.smul (CRat.ofRat e.sqrtVal) (unflat e.vec)
+
+/-- gate.py:is_cp = mutil.is_positive_semidefinite(sparse Choi, atol): `if is_hermitian(matrix, atol): … np.all(eigvals_not_close_zero >= 0) else: return False` with `close_zero = np.isclose(eigvals, 0, atol=atol, rtol=0.0)` (eigvalsh is the kernel parameter) -/
+def isCpGen {d : Nat} (choi : Mat CRat (d * d) (d * d)) (eigs : List (EigPair d)) (atol : Rat) : Bool :=
+  isHermitian choi atol && eigs.all fun e => closeZero e.val atol || decide (0 ≤ e.val)
+
+/-- gate.py:convert_var_to_hs `np.insert(reshaped, 0, np.eye(1, dim ** 2), axis=0)`: index of the inserted row `np.eye(1, dim ** 2)` (axis 0) -/
+def varRowIndex : Nat :=
+  0
+
+/-- gate.py:convert_hs_to_var `np.delete(hs, 0, axis=0).flatten()`: index of the deleted row (axis 0) -/
+def varRowDeleted : Nat :=
+  0
+
 -- povm.py:Povm._md_index2serial_index matched the row-major index-table skeleton (generator-side guard: a different body makes
 -- the generator fail; the model's `mdSerial` is tied to it by the correspondence on all multi-indices, not by a theorem)
 
